@@ -46,15 +46,19 @@ PROPS = {
                  "tape-chosen interleaving with yields before every Record/Refresh, before every mutex "
                  "acquisition inside billstat and while each Upload is in flight; a run is non-trivial when "
                  "the scheduler preempted a runnable task at least once or an upload failure fired; distinct "
-                 "= distinct hash of the full decision sequence (workload + schedule + faults)"),
+                 "= distinct hash of the full decision sequence (workload + schedule + faults); failed uploads fail as a "
+                 "service error, an exceeded deadline, a cancellation or a broken connection.  bpbsim part: the real gRPC "
+                 "uploader of internal/backendpb against a gRPC server in the bubble; 3-30 records and refreshes in sequence; "
+                 "per upload the backend fails before reading, after 1-3 records, at the end, or with the deadline status; "
+                 "a batch counts as delivered when Refresh returned nil, and the backend must then have accepted all of it"),
         "assumptions": [
             "the scheduler switches tasks only at inserted yields (harness yields, mutex acquisitions in billstat, in-flight Upload); data races inside a critical section are not explored",
             "process-kill/disk faults do not apply: the recorder is in-memory by design",
             "the recency clause of the metadata oracle is applied only to runs in which Refresh calls did not overlap (production runs one refresh worker)",
         ],
         "components": {
-            "real": ["internal/billstat.RuntimeRecorder (Record, Refresh, resetRecords, remergeRecords)"],
-            "stub": ["billstat.Uploader (simulated: parks in flight, tape-chosen success/failure)", "errcoll, metrics (no-op)"],
+            "real": ["internal/billstat.RuntimeRecorder (Record, Refresh, resetRecords, remergeRecords)", "bpbsim part: internal/backendpb BillStat uploader over real google.golang.org/grpc client and server on the simulated network"],
+            "stub": ["billsim part: billstat.Uploader (simulated: parks in flight, tape-chosen success/failure)", "bpbsim part: the backend service (gRPC server in the bubble)", "errcoll, metrics (no-op)"],
             "sim": REAL_COMMON,
         },
     },
@@ -83,10 +87,13 @@ PROPS = {
         },
     },
     "C14": {
-        "engine": "pdbsim",
-        "instrument": "internal/profiledb=locks;internal/profiledb/internal/filecachepb=calls:renameio\\.|os\\.WriteFile|os\\.Rename",
-        "modreplace": {"github.com/google/renameio/v2@v2.0.0": ".=calls:^t\\.Write$|^t\\.Sync$|os\\.Rename|CloseAtomicallyReplace"},
-        "cfgs": ["", "nocrash"],
+        "parts": [
+            {"engine": "pdbsim",
+             "instrument": "internal/profiledb=locks;internal/profiledb/internal/filecachepb=calls:renameio\\.|os\\.WriteFile|os\\.Rename",
+             "modreplace": {"github.com/google/renameio/v2@v2.0.0": ".=calls:^t\\.Write$|^t\\.Sync$|os\\.Rename|CloseAtomicallyReplace"},
+             "cfgs": ["", "nocrash"], "share": 3, "chunk": 1500},
+            {"engine": "bpbsim", "instrument": BPB_INSTRUMENT, "cfgs": [""], "share": 1, "chunk": 300},
+        ],
         "quick": {"seconds": 40, "chunk": 1500, "runs": 60000},
         "thorough": {"seconds": 900, "chunk": 5000},
         "rule": ("one run = simulated backend (1-3 profiles, up to 8 devices, pools of 4 linked IPs, 4 dedicated IPs, "
@@ -97,17 +104,25 @@ PROPS = {
                  "lock acquisition in profiledb (so every `go db.remove...` clean-up is ordered by the tape against "
                  "the next sync and lookups), during the storage request, and around the steps of the atomic cache "
                  "write; crash images of the cache directory at those steps; non-trivial = a preemption was taken or "
-                 "a fault fired; distinct = distinct decision-sequence hash"),
+                 "a fault fired; distinct = distinct decision-sequence hash.  bpbsim part: the real gRPC profile storage of "
+                 "internal/backendpb (dialling through the simulated network) against a gRPC server in the bubble that holds "
+                 "1-4 profiles and their devices as protobuf messages and changes them between 4-40 operations (settings, "
+                 "moves, new and removed devices, deletions; devices the client must reject: malformed ID, dedicated address "
+                 "outside the servers' addresses; profiles it must reject: unusable blocking mode); synchronisations full or "
+                 "incremental by simulated time, with the backend failing before, in the middle of or at the end of the stream, "
+                 "exceeding the deadline or omitting the sync_time trailer; lookups by all four key kinds compared with the "
+                 "content of the successful synchronisations"),
         "assumptions": [
             "the backend stub sends, like the real one, every changed profile with all of its devices, and at most one current owner per key",
             "a lookup overlapping a refresh may see the version before or after it; exact equality is demanded from lookups that do not overlap one",
-            "CreateAutoDevice is not simulated",
+            "CreateAutoDevice is exercised through the device finder in the C03 check, not here",
+            "bpbsim part: sequential histories (interleavings are the pdbsim part's subject); a profile may start unusable and be repaired, not the other way round (the statement defines nothing for a database that keeps the last accepted state of one profile next to newer states of others); lookups for which the reference itself is ambiguous are not judged",
             "crash images model a killed process (every completed syscall survives); power loss is out of reach without a file-system seam",
             "renameio v2.0.0 runs real code with yields inserted by overlay between its write, sync and rename steps",
         ],
         "components": {
-            "real": ["internal/profiledb.Default", "internal/profiledb/internal/filecachepb (protobuf encode/decode, Store, Load)", "github.com/google/renameio/v2 (instrumented)", "real files in a per-run scratch directory"],
-            "stub": ["profiledb.Storage (simulated backend with change log)", "errcoll, metrics (no-op)"],
+            "real": ["internal/profiledb.Default", "internal/profiledb/internal/filecachepb (protobuf encode/decode, Store, Load)", "github.com/google/renameio/v2 (instrumented)", "real files in a per-run scratch directory", "bpbsim part: internal/backendpb ProfileStorage (profile.go, device.go conversions, stream handling, error mapping) over real google.golang.org/grpc client and server on the simulated network"],
+            "stub": ["pdbsim part: profiledb.Storage (simulated backend with change log)", "bpbsim part: the backend service (gRPC server implementing DNSService in the bubble)", "errcoll, metrics (no-op)"],
             "sim": REAL_COMMON,
         },
     },
